@@ -184,6 +184,12 @@ def run(tier, chk):
     # the same meaning must come out when identical sub-trees are one shared Python object (as user code and the lifter build them)
     td = sharing_trees(rnd, 2500 if quick else 30000)
     run_space(chk, td, rnd, 8 if quick else 16, [], 'd:trees with repeated sub-trees, built as DAGs', shared=True)
+    # concatenations with constants typed wider than their slot, and inputs taken from the simplifier's own output language
+    tf = loose_compose_trees(rnd, 2500 if quick else 30000)
+    run_space(chk, tf, rnd, 8 if quick else 16, [], 'f:concatenations with constants wider than their slot')
+    src = loose_compose_trees(rnd, 1500 if quick else 15000) + random_trees(rnd, 1500 if quick else 15000)
+    tg = second_pass_trees(rnd, src, irlib.pmap(_simp, src))
+    run_space(chk, tg, rnd, 8 if quick else 16, [], 'g:second pass (simplify, substitute a constant for an identifier, simplify)')
     rule_conformance(chk, [t for t in ta if t['k'] == 'op'] if not quick else [t for t in ta if t['k'] == 'op' and rnd.random() < 0.5], rnd)
     chk.cov['rule'] = ('trees = reachable one-element stacks of IRGen.tla (typed stack machine) + seeded random deeper trees; '
                        'non-trivial = trees whose simplification differs structurally from the input (or did not terminate)')
@@ -288,6 +294,68 @@ def sharing_trees(rnd, n):
             u = {'k': 'op', 'w': w, 'o': rnd.choice(['+', '&', '^']), 'u': 0, 'a': [t, {'k': 'id', 'w': w, 'n': 'y' + str(w)}]}
             out.append({'k': 'op', 'w': w, 'o': o, 'u': 0, 'a': [t, u] if rnd.random() < 0.5 else [u, t]})
     return out
+
+
+def loose_compose_trees(rnd, n):
+    """concatenations whose constant components are typed wider than their slot (only the low stop-start bits count):
+    the simplifier itself produces them (a merged constant gets the type of the whole concatenation), user code and
+    substitution feed them back"""
+    W = [8, 16, 32, 64]
+    out = []
+    while len(out) < n:
+        w = rnd.choice([16, 32, 32, 64])
+        cuts = sorted(set([0, w] + [rnd.choice([8, 16, 24, 32, 48, w // 2]) for _ in range(rnd.choice([1, 2, 3]))]))
+        cuts = [c for c in cuts if c <= w]
+        slots = list(zip(cuts, cuts[1:]))
+        if len(slots) < 2:
+            continue
+        args = []
+        for lo, hi in slots:
+            sw = hi - lo
+            r = rnd.random()
+            if r < 0.65:
+                tw = rnd.choice([x for x in W if x >= sw])
+                v = rnd.getrandbits(tw) if rnd.random() < 0.7 else rnd.choice(irlib.boundary(tw))
+                args.append({'k': 'int', 'w': tw, 'v': core.limbs(v, tw)})
+            elif sw in (8, 16, 32):
+                args.append({'k': 'id', 'w': sw, 'n': rnd.choice('xy') + str(sw)})
+            else:
+                bw = rnd.choice([x for x in W if x >= sw])
+                src = {'k': 'id', 'w': bw, 'n': rnd.choice('xy') + str(bw)}
+                l0 = rnd.choice([0, bw - sw])
+                args.append(src if bw == sw else {'k': 'slice', 'w': sw, 'lo': l0, 'hi': l0 + sw, 'a': [src]})
+        t = {'k': 'compose', 'w': w, 'a': args, 's': [[lo, hi] for lo, hi in slots]}
+        if rnd.random() < 0.3:
+            t = {'k': 'op', 'w': w, 'o': rnd.choice(['+', '^', '&', '|']), 'u': 0, 'a': [t, {'k': 'id', 'w': w, 'n': 'z' + str(w)}]}
+        out.append(t)
+    return out
+
+
+def subst_const(t, name, c):
+    if t['k'] == 'id':
+        return dict(c) if t['n'] == name else t
+    r = dict(t)
+    for f in ('a', 'g'):
+        if f in t:
+            r[f] = [subst_const(x, name, c) for x in t[f]]
+    return r
+
+
+def second_pass_trees(rnd, trees, outs):
+    """inputs drawn from the simplifier's own output language: a simplified tree in which one identifier is then replaced
+    by a constant (what eval_expr / replace_expr followed by expr_simp do)"""
+    res = []
+    for t, (st, r) in zip(trees, outs):
+        if st != 'ok':
+            continue
+        idw = EJ.ids_of(r)
+        if not idw:
+            continue
+        for name in sorted(idw)[:2]:
+            w = idw[name]
+            v = rnd.choice(irlib.boundary(w)) if rnd.random() < 0.5 else rnd.getrandbits(w)
+            res.append(subst_const(r, name, {'k': 'int', 'w': w, 'v': core.limbs(v, w)}))
+    return res
 
 
 def negative_control(chk):
